@@ -160,7 +160,9 @@ def worker(args):
     res = {"name": name, "mode": k, "n": 0, "kinds": {}, "mismatch": [], "decoded": 0, "deep": 0, "raised": 0, "samples": []}
     with isa.ModeCtx(dis, k):
         for kind, b in gen_inputs(rng, name, dis, specs, nrandom, nspec):
-            isa.reset_pending(dis)
+            # the disassembler is called with whatever state its earlier calls left (sometimes right after a prefixed
+            # byte string that is not an instruction); the reference scan starts from a clean slot
+            hist = isa.junk_history(dis, (name, k))
             o1 = outcome(lambda: dis(b))
             isa.reset_pending(dis)
             o2 = outcome(lambda: ref_call(dis, specs, b, core))
@@ -174,7 +176,7 @@ def worker(args):
             if len(res["samples"]) < 2 and o1 is not None and "raised" not in o1:
                 res["samples"].append({"isa": name, "mode": k, "bytes": b.hex(), "decoded": o1["mnemonic"], "len": len(o1["bytes"]) // 2})
             if o1 != o2 and len(res["mismatch"]) < 5:
-                res["mismatch"].append({"isa": name, "mode": k, "kind": kind, "bytes": b.hex(), "disassembler": o1, "reference_scan": o2})
+                res["mismatch"].append({"isa": name, "mode": k, "kind": kind, "bytes": b.hex(), "disassembler": o1, "reference_scan": o2, "history": [hist] if hist else []})
     return res
 
 
@@ -254,7 +256,11 @@ def replay(path):
     specs, _ = mode_specs(dis, m["mode"])
     b = bytes.fromhex(m["bytes"])
     with isa.ModeCtx(dis, m["mode"]):
-        isa.reset_pending(dis)
+        for h in m.get("history", []):
+            try:
+                dis(bytes.fromhex(h))
+            except Exception:
+                pass
         o1 = outcome(lambda: dis(b))
         isa.reset_pending(dis)
         o2 = outcome(lambda: ref_call(dis, specs, b, core))
